@@ -57,7 +57,7 @@ def do_replay(path):
         print(f"job {rp['job']} not found in the current contract set")
         return 3
     if rp.get("corpus_monitor") is not None:
-        fails = corpus_failures(rp["property"], rp.get("job"))
+        fails = corpus_failures(rp["property"], (rp.get("job") or "") + " " + (rp.get("clause") or ""))
         print(json.dumps(fails[:5], indent=1, default=str))
         if fails:
             print(f"REPLAY: obligation {rp['obligation']}: the corpus monitor finds {fails[0]['relation']!r} failing in scenario {fails[0]['scenario']!r}")
@@ -404,10 +404,10 @@ def replay_obligation(prop, o, jobs):
                                             first_attempt_with_the_verifier_model=out)
                 confirmed = True
     fam = (o.get("meta") or {}).get("family", "")
-    if not confirmed and fam in ("solver-method", "solver-run", "convergence", "snapshot", "export", "powertrain-reset"):
+    if not confirmed and fam in ("solver-method", "solver-run", "convergence", "snapshot", "export", "powertrain-reset", "powertrain-misc"):
         # L2 obligation: no direct concrete input; evaluate the per-instant relations natively on the corpus of real
         # simulations (pycv/monitor.py) -- the first failing relation of this property is the replayed counterexample
-        fails = corpus_failures(prop, o.get("job"))
+        fails = corpus_failures(prop, (o.get("job") or "") + " " + (o.get("clause") or ""))
         rp["corpus_monitor"] = dict(scenarios=10, failures=fails[:5])
         if fails:
             confirmed = True
